@@ -26,6 +26,117 @@ func runSpecials(w *world, rep *vevid.Report) {
 	emptyMetaFlush(w, rep)
 	partialFields(w, rep)
 	unalignedFamilies(w, rep)
+	missingGroupTag(w, rep)
+}
+
+// missingGroupTag: one series of the metric does not carry the tag key the query groups by (r: region=x, a: host=a).
+// Exhaustive over the write order, the slot of the second write (same / next), what happens between ({nothing, flush,
+// reopen}) and after ({nothing, flush}) x {group by host, group by region, no group by}: a group-by returns exactly
+// the series that carry the key, with their own values, wherever the other series is stored.
+func missingGroupTag(w *world, rep *vevid.Report) {
+	type pw struct {
+		tags map[string]string
+		v    float64
+	}
+	r := pw{map[string]string{"region": "x"}, 4}
+	a := pw{map[string]string{"host": "a"}, 16}
+	write := func(metric string, p pw, slot string, off int) {
+		w.newTick()
+		mp := vbox.MultiPoint{Metric: metric, Tags: p.tags, Timestamp: w.base + slotOf(slot) + int64(off+1)*1000}
+		mp.Fields = append(mp.Fields, vbox.FieldValue{Name: fieldName("sum"), Type: "sum", Value: p.v})
+		if err := w.box.WriteMulti(shardID, mp); err != nil {
+			vevid.OpFailed("special write: %v", err)
+		}
+		w.lastCreate = fasttime.UnixNano()
+	}
+	do := func(op string) {
+		switch op {
+		case "F":
+			if err := w.box.Flush(shardID, w.bothFamilies()); err != nil {
+				vevid.OpFailed("special flush: %v", err)
+			}
+			w.flushedSinceOpen = true
+		case "R":
+			if err := w.reopen(); err != nil {
+				vevid.OpFailed("special reopen: %v", err)
+			}
+			w.flushedSinceOpen = false
+		}
+	}
+	for _, order := range []string{"ra", "ar"} {
+		for _, slot2 := range []string{"same", "next"} {
+			for _, mid := range []string{"", "F", "R"} {
+				for _, end := range []string{"", "F"} {
+					if w.timeouts >= 3 {
+						return
+					}
+					w.seq++
+					metric := fmt.Sprintf("%sg%d", w.prefix, w.seq)
+					first, second := r, a
+					if order == "ar" {
+						first, second = a, r
+					}
+					write(metric, first, "same", 0)
+					do(mid)
+					write(metric, second, slot2, 1)
+					do(end)
+					slotOfPW := map[string]int64{}
+					if order == "ra" {
+						slotOfPW["r"], slotOfPW["a"] = slotOf("same"), slotOf(slot2)
+					} else {
+						slotOfPW["a"], slotOfPW["r"] = slotOf("same"), slotOf(slot2)
+					}
+					history := fmt.Sprintf("%s@same %s %s@%s %s (r: region=x, a: host=a)", order[:1], mid, order[1:], slot2, end)
+					scenario := fmt.Sprintf("missing-group-tag/%s|%s", order, mid+end)
+					type qd struct {
+						sql  string
+						want map[string]float64
+					}
+					f := fieldName("sum")
+					all := map[string]float64{}
+					all[fmt.Sprintf("|%s|%d", f, slotOfPW["r"])] += 4
+					all[fmt.Sprintf("|%s|%d", f, slotOfPW["a"])] += 16
+					qs := []qd{
+						{"select " + f + " from " + metric + " group by host", map[string]float64{fmt.Sprintf("host=a|%s|%d", f, slotOfPW["a"]): 16}},
+						{"select " + f + " from " + metric + " group by region", map[string]float64{fmt.Sprintf("region=x|%s|%d", f, slotOfPW["r"]): 4}},
+						{"select " + f + " from " + metric, all},
+					}
+					for _, q := range qs {
+						rep.Evaluations++
+						rep.DistinctNontrivial++
+						got, err := w.querySQL(q.sql)
+						var bad []string
+						if err != nil {
+							if isTimeout(err) {
+								w.timeouts++
+							}
+							bad = append(bad, "query failed: "+err.Error())
+						} else {
+							for k, v := range q.want {
+								if g, ok := got[k]; !ok {
+									bad = append(bad, "missing "+k)
+								} else if g != v {
+									bad = append(bad, fmt.Sprintf("%s = %v want %v", k, g, v))
+								}
+							}
+							for k, g := range got {
+								if _, ok := q.want[k]; !ok {
+									bad = append(bad, fmt.Sprintf("unexpected %s = %v", k, g))
+								}
+							}
+						}
+						rep.Outcome(fmt.Sprintf("special:missing-group-tag:%d", len(q.want)))
+						if len(bad) > 0 {
+							sort.Strings(bad)
+							rep.Count("viol missing-group-tag "+scenario, 1)
+							rep.Violate(vevid.Violation{Clause: "missing-group-tag", Scenario: scenario, Site: "scripted", Replay: Case{Special: "all"},
+								Detail: fmt.Sprintf("%s\nwant: %v\nlindb: %s\nhistory: %s\nquery: %s", strings.Join(bad, "; "), q.want, renderGot(got), history, strings.Replace(q.sql, metric, "M", 1))})
+						}
+					}
+				}
+			}
+		}
+	}
 }
 
 // unalignedFamilies: a query range that is aligned to the storage interval but not to the query interval, over two data
